@@ -173,10 +173,38 @@ def make(targets, timeout=1500):
     return p.returncode == 0, p.stdout, failed, 'cd coq && ' + ' '.join(cmd), time.time() - t0
 
 
+NSLOTS = 20      # machine-wide cap on concurrent coqc processes started by checks (each can take > 1 GB)
+
+
+class Slot:
+    """cross-process counting semaphore built from lock files (several checks may run at once)"""
+    def __enter__(self):
+        os.makedirs(BUILD, exist_ok=True)
+        while True:
+            for k in range(NSLOTS):
+                f = open(os.path.join(BUILD, '.slot_%d' % k), 'w')
+                try:
+                    fcntl.flock(f, fcntl.LOCK_EX | fcntl.LOCK_NB)
+                    self.f = f
+                    return self
+                except OSError:
+                    f.close()
+            time.sleep(0.25)
+
+    def __exit__(self, *a):
+        fcntl.flock(self.f, fcntl.LOCK_UN)
+        self.f.close()
+
+
 def coqc_file(path, timeout=600):
     """Compile one stand-alone file (a Cases file) against the built development."""
     cmd = ['timeout', str(timeout), 'coqc', '-Q', COQ, 'Verif', '-w', '-all', path]
-    p = subprocess.run(cmd, stdout=subprocess.PIPE, stderr=subprocess.STDOUT, text=True)
+    with Slot():
+        p = subprocess.run(cmd, stdout=subprocess.PIPE, stderr=subprocess.STDOUT, text=True)
+    if p.returncode in (137, -9):        # killed (memory pressure): one retry
+        time.sleep(2)
+        with Slot():
+            p = subprocess.run(cmd, stdout=subprocess.PIPE, stderr=subprocess.STDOUT, text=True)
     return p.returncode, p.stdout
 
 
